@@ -162,6 +162,8 @@ func (s *regSys) exec(op Op) (out Outcome) {
 			off = h.Size() + 1
 		case "zero":
 			off = 0
+		case "num":
+			off = op.N
 		}
 		h.Close()
 		w, err := s.reg.PushBlobChunkedResume(ctx, up.Repo, h.ID(), off, 0)
@@ -185,6 +187,9 @@ func (s *regSys) exec(op Op) (out Outcome) {
 		dig := sha256Digest(s.model.Uploads[op.H].Buf)
 		if op.Bad != "" {
 			dig = sha256Digest([]byte("not the uploaded bytes"))
+		}
+		if op.Off == "explicit" {
+			dig = sha256Digest([]byte(op.Piece))
 		}
 		return outcomeOf(h.Commit(dig))
 	case "Cancel":
